@@ -36,6 +36,7 @@ class GoawayMonitor(object):
     def __init__(self, e_client):
         self.e_client = e_client
         self.W = 0                 # highest peer-opened stream id E has reported
+        self.closed = False        # connection already closed (earlier raise / GOAWAY delivered)
         self.in_parser = wire.StreamParser(expect_preface=not e_client)
 
     def note_events(self, events):
@@ -50,9 +51,13 @@ class GoawayMonitor(object):
         """Returns list of (key, description) problems for this call."""
         frames = self.in_parser.feed(data)
         probs = []
+        was_closed = self.closed
         if res.exc is None:
             self.note_events(res.events)
+            if any(f.type == wire.GOAWAY and not f.defects for f in frames):
+                self.closed = True
             return probs
+        self.closed = True
         if not isinstance(res.exc, h2.exceptions.ProtocolError):
             return probs               # C17's business
         rep.count('goaway_oracle_evaluated')
@@ -77,7 +82,8 @@ class GoawayMonitor(object):
                           'GOAWAY code %s but exception %s carries %r' % (g.error_code, type(res.exc).__name__, code)))
         # last-stream-id
         allowed = {self.W}
-        for f in frames:
+        # on an already closed connection no frame can open a stream any more: only W is acceptable
+        for f in ([] if was_closed else frames):
             if f.type in (wire.HEADERS, wire.CONTINUATION) and not self.e_client:
                 if f.stream_id % 2 == 1 and f.stream_id > self.W:
                     allowed.add(f.stream_id)
@@ -95,6 +101,8 @@ class GoawayMonitor(object):
             probs.append((prefix + ':goaway-last-stream-id', 'GOAWAY last_stream_id=%s, highest peer-opened id is %s (allowed %s)'
                           % (g.last_stream_id, self.W, sorted(allowed))))
         else:
+            if was_closed:
+                rep.count('lastid_checked_on_closed_connection')
             if self.W:
                 rep.count('lastid_nonzero_checked')
             # E counted the offending stream-opening frame as opened: follow it (it was in the allowed set)
